@@ -116,15 +116,23 @@ class Run:
         """assert formula under path condition pc; unsat(pc & !formula) = holds.
         returns True if holds.  A sat result records a counterexample (decoded by `decode(model)`)."""
         t = time.time()
-        r, s = self._solve(list(pc) + [z3.Not(formula)])
+        key = tuple(id(c) for c in pc)
+        if getattr(self, '_ps_key', None) != key:
+            s = z3.Solver(); s.set('timeout', self.timeout_ms); s.set('random_seed', self.seed % (2**31))
+            for c in pc: s.add(c)
+            self._ps_key, self._ps, self._ps_pc = key, s, list(pc)     # keep pc alive so ids stay unique
+        s = self._ps
+        s.push(); s.add(z3.Not(formula))
+        t1 = time.time(); r = s.check(); self.solver_s += time.time() - t1
         rec = {'name': name, 'result': str(r), 's': round(time.time() - t, 3)}
         if group: rec['group'] = group
         self.obl.append(rec)
         if self.tier == 'thorough' or len(self.exported) < 40:
             self.exported.append((name, s.to_smt2(), str(r)))
-        if r == z3.unsat: return True
+        if r == z3.unsat:
+            s.pop(); return True
         if r == z3.unknown:
-            self.inconclusive.append(f'solver unknown on "{name}" ({s.reason_unknown()})'); return False
+            self.inconclusive.append(f'solver unknown on "{name}" ({s.reason_unknown()})'); s.pop(); return False
         m = s.model()
         cx = {'obligation': name, 'group': group or name, 'tainted': list(tainted or [])}
         if decode is not None:
@@ -134,6 +142,7 @@ class Run:
         else:
             cx['model'] = {str(d): str(m[d]) for d in m.decls() if d.arity() == 0}
         self.counterexamples.append(cx)
+        s.pop()
         return False
 
     def reach(self, name, pc, formula=None):
@@ -144,11 +153,22 @@ class Run:
             self.inconclusive.append(f'vacuity witness "{name}" is {r}: harness does not reach what it claims to cover')
         return r == z3.sat, (s.model() if r == z3.sat else None)
 
+    def reach_any(self, name, pcs, formula=None):
+        """vacuity witness over a set of paths: at least one must satisfy formula"""
+        for pc in pcs:
+            r, s = self._solve(list(pc) + ([formula] if formula is not None else []))
+            if r == z3.sat:
+                self.reach_list.append({'name': name, 'result': 'sat'}); return True
+        self.reach_list.append({'name': name, 'result': 'unsat'})
+        self.inconclusive.append(f'vacuity witness "{name}" unsatisfiable on all {len(pcs)} candidate paths')
+        return False
+
     def check_interp_clean(self, I, label=''):
         st = I.stats.get('stuck')
         if st:
             kinds = sorted(set(f'{a} @ {b}:{c}' for a, b, c in st))
             self.inconclusive.append(f'{label}: interpreter stuck on {len(st)} path(s): ' + '; '.join(kinds[:4]))
+            I.stats['stuck'] = []
         return not st
 
     # ---------------------------------------------------------------- cvc5 cross-check
